@@ -11,7 +11,7 @@ impl Prop for Iin {
     const ID: &'static str = "C13";
     const NAME: &'static str = "iin";
     fn rule() -> &'static str {
-        "the C03 history generator plus broadcasts of all three confirm modes, writes of the restart bit (0 and 1), changes of the application's IIN answer and reconnects, buffers of 0..8 so overflow hits written and unwritten events; oracle = model built from the statement: for every NEWLY BUILT response (re-sent fragments are C05's) CLASS_n == exists a buffered, unreleased, undiscarded event of class n carried neither by this response nor by one still awaiting confirmation; EVENT_BUFFER_OVERFLOW from a discard until a confirm bracket leaves every type below capacity; RESTART until written to 0 (survives reconnect); BROADCAST from a received broadcast until reported (confirm-mandatory: until a confirmation); NEED_TIME/LOCAL_CONTROL/DEVICE_TROUBLE/CONFIG_CORRUPT == application's answer; non-trivial = an overflow that discards an in-flight event, or a response judged after an unsolicited series ended unconfirmed"
+        "the C03 history generator plus broadcasts of all three confirm modes, writes of the restart bit (0 and 1), changes of the application's IIN answer and reconnects, buffers of 0..8 so overflow hits written and unwritten events; oracle = model built from the statement: for every NEWLY BUILT response (re-sent fragments are C05's) CLASS_n == exists a buffered, unreleased, undiscarded event of class n carried neither by this response nor by one still awaiting confirmation; EVENT_BUFFER_OVERFLOW from a discard until a confirm bracket leaves every type below capacity; RESTART until written to 0 (survives reconnect); BROADCAST from a received broadcast until reported (confirm-mandatory: until a confirmation; a CONFIRM that carries the sequence number of no response of its kind is none); NEED_TIME/LOCAL_CONTROL/DEVICE_TROUBLE/CONFIG_CORRUPT == application's answer; non-trivial = an overflow that discards an in-flight event, or a response judged after an unsolicited series ended unconfirmed"
     }
     fn cases(tier: Tier) -> u32 {
         match tier {
